@@ -45,7 +45,6 @@ ASSUMPTIONS = [
     'population model: rejection)',
     'compositions with duplicate default names (KF-C17-dim-names-reset) are '
     'not generated here',
-    'the name / ID dataflow monitor of filter posteriors skips covariate-wrapped pooled / heterogeneous parts (open finding KF-C13-covariate-special-dims)',
 ]
 ANCHORS = [
     'chi._inference.SamplingController._format_chains',
@@ -448,10 +447,7 @@ def initial_case(ctx, rng, idx):
         ctx.violation('initial_points_finite', 'initial_nonfinite',
                       {'points': a}, feats)
         return
-    if which == 2 and not any(l.cov and l.kind in 'PH'
-                              for l in case.leaves):
-        # (covariate-wrapped pooled / heterogeneous parts in a filter
-        # posterior are the open finding of C13 and not generated here)
+    if which == 2:
         # every entry of the point means what its published name / ID says
         # (perturbation through the taps; shared with the C13 machinery)
         from checks import c13
@@ -537,7 +533,7 @@ def initial_located_case(ctx, rng, idx):
         bottom = pts[:, :h.n_bottom].reshape(3, n, h.n_hdim) \
             if h.n_hdim else None
     else:
-        fp = c13.FPCase(rng, idx)
+        fp = c13.FPCase(rng, idx, allow_fixed=False)
         top, sd, loc = GP.separated_top(fp.leaves, fp.n_s)
         fp.prior_mu = np.concatenate(
             [top, np.full(fp.n_top - fp.n_pop, 0.2)])
